@@ -5,7 +5,7 @@ cd /repo || exit 9
 git diff --quiet || { echo "/repo has uncommitted changes"; exit 9; }
 git apply "$p" || { echo "patch does not apply"; exit 9; }
 for id in "$@"; do
-  (cd /verif && ./check $id --tier quick > /verif/.work/seed_$id.out 2>/dev/null; rc=$?; grep -v "^KNOWN-FINDING" /verif/.work/seed_$id.out | tail -4; echo "  -> $id exit $rc")
+  (cd /verif && VERIF_EVIDENCE_DIR=/verif/.work/seed-evidence ./check $id --tier quick > /verif/.work/seed_$id.out 2>/dev/null; rc=$?; grep -v "^KNOWN-FINDING" /verif/.work/seed_$id.out | tail -4; echo "  -> $id exit $rc")
 done
 git -C /repo checkout -- .
 git -C /repo status --short | head -3
